@@ -6,7 +6,7 @@ import json
 
 from ..mon import Reach
 from ..ref_sem import Lang
-from ..result import Budget, digest
+from ..result import Budget, digest, safe
 from ..stream import corelang_spec
 from ..gen_lang import gen_language, Cfg
 
@@ -263,7 +263,7 @@ def attempts(rng, lang, factory, res, count=True):
     return None
 
 
-def check_case(spec, seed, res, count=True):
+def _check_case(spec, seed, res, count=True):
     import random
     from maltoolbox.language import LanguageGraph, LanguageClassesFactory
     lang = Lang(spec)
@@ -276,6 +276,9 @@ def check_case(spec, seed, res, count=True):
     if f:
         return f
     return attempts(random.Random(seed), lang, factory, res, count)
+
+
+check_case = safe(_check_case)
 
 
 def run(rng, res, tier, shard, nshards):
